@@ -24,7 +24,7 @@
     'decreases': 'g_n - g_i'},
    {'file': 'igris/util/numconvert.c', 'func': 'igris_atof64', 'ghost': 'spec_atof_exp_step(KF_C12_atof64_exp_overflow);', 'at': 'body-begin', 'loop': 2},
    {'file': 'igris/util/numconvert.c', 'func': 'igris_atof64', 'at': 'before', 'anchor': 'while (d > 0)',
-    'ghost': 'spec_atof_done(KF_C12_atof64_exp_overflow); __CPROVER_assert(g_eval >= C12_EEXACT || (int64_t)d == spec_atof_dexp(), "decimal exponent bookkeeping: d == exponent - number of fraction digits"); __CPROVER_assert(val >= 0.0 && !__CPROVER_signd(val), "the digit string accumulates to a non-negative number (no NaN)");'},
+    'ghost': 'spec_atof_done(KF_C12_atof64_exp_overflow); __CPROVER_assert(g_eval >= C12_EEXACT || (int64_t)d == spec_atof_dexp(), "decimal exponent bookkeeping: d == exponent - number of fraction digits"); __CPROVER_assert(val >= 0.0 && !spec_signd(val), "the digit string accumulates to a non-negative number (no NaN)");'},
    {'file': 'igris/util/numconvert.c', 'func': 'igris_atof64', 'loop': 3, 'expect': 'd > 0',
     'assigns': 'val, d', 'invariants': ['val >= 0.0 && !__CPROVER_signd(val)', 'd >= 0'], 'decreases': 'd'},
    {'file': 'igris/util/numconvert.c', 'func': 'igris_atof64', 'loop': 4, 'expect': 'd < 0',
